@@ -464,6 +464,12 @@ class Normaliser:
                 return True
             if isinstance(n, ast.If) and isinstance(n.test, ast.Constant):
                 return True
+            if isinstance(n, ast.Assign) and isinstance(n.targets[0], (ast.Tuple, ast.List)) \
+                    and isinstance(n.value, (ast.GeneratorExp, ast.ListComp)):
+                return True
+            if isinstance(n, ast.BoolOp) and isinstance(n.op, ast.Or) and len(n.values) == 2 \
+                    and isinstance(n.values[0], ast.Name) and isinstance(getattr(n, '_parent', None), (ast.Call, ast.BinOp)):
+                return True
             if isinstance(n, ast.Call) and any(k.arg is None and isinstance(k.value, (ast.Dict, ast.Name))
                                                and (isinstance(k.value, ast.Dict) or k.value.id.isupper())
                                                for k in n.keywords):
@@ -532,6 +538,8 @@ class Normaliser:
             c4 = self._scalar_replace_records(fn, mod) or c4
             c4 = self._join_of_generator(fn, rel, mod, cls) or c4
             c4 = self._comprehension_with_helper(fn, rel, mod, cls, stack) or c4
+            c4 = self._unpack_of_comprehension(fn) or c4
+            c4 = self._or_default_to_ifexp(fn) or c4
             self._cur_fn = fn
             c5 = self._fold_table_comprehensions(fn, mod, cls)
             c5 = self._unroll_constant_tables(fn, mod, cls) or c5
@@ -1000,6 +1008,75 @@ class Normaliser:
             ast.fix_missing_locations(fn)
             parent_of = {id(ch): nd for nd in ast.walk(fn) for ch in ast.iter_child_nodes(nd)}
             changed = True
+        return changed
+
+    def _unpack_of_comprehension(self, fn: ast.AST) -> bool:
+        """`a, b = (f(p) for p in xs)`: `_u1, _u2 = xs; a = f(_u1); b = f(_u2)` (the same ValueError when
+        xs does not have as many items as there are targets)"""
+        changed = False
+        for blk in list(self._blocks(fn)):
+            i = 0
+            while i < len(blk):
+                st = blk[i]
+                i += 1
+                if not (isinstance(st, ast.Assign) and len(st.targets) == 1 and isinstance(st.targets[0], (ast.Tuple, ast.List))
+                        and all(isinstance(t, ast.Name) for t in st.targets[0].elts)
+                        and isinstance(st.value, (ast.GeneratorExp, ast.ListComp)) and len(st.value.generators) == 1):
+                    continue
+                g = st.value.generators[0]
+                if g.ifs or g.is_async or not isinstance(g.target, ast.Name):
+                    continue
+                tnames = [t.id for t in st.targets[0].elts]
+                if any(isinstance(x, ast.Name) and x.id in tnames for x in ast.walk(st.value)):
+                    continue
+                self._tmp = getattr(self, '_tmp', 0) + 1
+                taken = {x.id for x in ast.walk(fn) if isinstance(x, ast.Name)}
+                us = []
+                for k in range(len(tnames)):
+                    nm = f'_u{self._tmp}_{k + 1}'
+                    if nm in taken:
+                        us = []
+                        break
+                    us.append(nm)
+                if not us:
+                    continue
+                new: list[ast.stmt] = [ast.Assign(
+                    targets=[ast.Tuple(elts=[ast.Name(id=u, ctx=ast.Store()) for u in us], ctx=ast.Store())],
+                    value=g.iter)]
+                for t, u in zip(tnames, us):
+                    holder = ast.Expr(value=clone(st.value.elt))
+                    _Sub({g.target.id: ast.Name(id=u, ctx=ast.Load())}, {}).visit(holder)
+                    new.append(ast.Assign(targets=[ast.Name(id=t, ctx=ast.Store())], value=holder.value))
+                for x in new:
+                    ast.copy_location(x, st)
+                    ast.fix_missing_locations(x)
+                blk[i - 1:i] = new
+                i += len(new) - 1
+                changed = True
+        return changed
+
+    def _or_default_to_ifexp(self, fn: ast.AST) -> bool:
+        """`x or d` as a value (not as a test) with x a plain name: `x if x else d`"""
+        changed = False
+
+        class T(ast.NodeTransformer):
+            def visit_BoolOp(inner, node):
+                nonlocal changed
+                inner.generic_visit(node)
+                if isinstance(node.op, ast.Or) and len(node.values) == 2 and isinstance(node.values[0], ast.Name):
+                    changed = True
+                    return ast.copy_location(ast.IfExp(test=clone(node.values[0]), body=node.values[0],
+                                                       orelse=node.values[1]), node)
+                return node
+        for blk in list(self._blocks(fn)):
+            for st in blk:
+                if isinstance(st, (ast.Assign, ast.AnnAssign, ast.Return, ast.AugAssign)) and getattr(st, 'value', None) is not None:
+                    # only below the top of the value: `flag = a or b` itself is a truth value more often than not
+                    for sub in ast.iter_child_nodes(st.value):
+                        pass
+                    if isinstance(st.value, ast.BoolOp):
+                        continue
+                    st.value = T().visit(st.value)
         return changed
 
     def _comprehension_with_helper(self, fn: ast.AST, rel, mod, cls, stack) -> bool:
